@@ -8,6 +8,8 @@
 (***************************************************************************)
 EXTENDS Grammar, Interp, Json, SequencesExt
 
+FA == INSTANCE Faults
+
 CONSTANT Family, Tier
 VARIABLE c
 
@@ -96,8 +98,24 @@ Blocks(z) == {
   << <<Say(B("eq", Pro, N(5))), SPNum(0, Pro, N(5)), Say(B("eq", Pro, Pro)), SIf(0, B("eq", Pro, Lit(Bool(TRUE))), <<SPNum(0, Pro, PL1)>>, FALSE, <<>>)>> >>
 }
 
+(* poetic literals (C11): every sequence of items; a 's / 're suffix needs a word (or suffix) before it, a literal *)
+(* never starts with a hyphen                                                                                      *)
+PItems == { PW("a"), PW("it"), PW("lovely"), PW("abcdefghi"), PW("abcdefghij"), PW("abcdefghijk"), PW("abcdefghijklmnopqrst"),
+            PW("don't"), PW("~t~"), PW("and"), PW("nothing"), PW("5"), PS("'s"), PS("'re"), PS("-top"), PS("-and"), PD }
+PSeqOK(es) == /\ es[1].k # "s"
+              /\ \A i \in 2..Len(es) : es[i].k = "s" /\ CharAt(es[i].s, 1) = "'" =>
+                     es[i - 1].k = "w" \/ (es[i - 1].k = "s" /\ CharAt(es[i - 1].s, 1) = "-")     \* one 's / 're per word
+              /\ es[1] \notin { PW("nothing"), PW("5") }                     \* a literal word first makes it an expression
+PSeqs(z) == { es \in UNION { [1..n -> PItems] : n \in 1..(IF Tier = "quick" THEN 2 ELSE 3) } : PSeqOK(es) }
+            \cup { [i \in 1..n |-> PW("a")] : n \in {15, 16, 17, 18, 22} }            \* long integer parts
+            \cup { <<PW("a"), PD>> \o [i \in 1..n |-> PW("ab")] : n \in {15, 17, 20} }
+PoeticTrees(z) == { << <<SPNum(0, X, PLit(es))>> >> : es \in PSeqs(z) }
+             \cup { << <<SRock(0, X, <<PLit(es)>>)>> >> : es \in { q \in PSeqs(z) : Len(q) <= 2 } }
+             \cup { << <<SPStr(0, X, t), Say(X)>> >> : t \in { "hello", " lead", "trail  ", "a, b. c! (d) \"e\" 'f' 5 is nothing", "~t~ \t x", "", "it's a \"quoted (thing)\" here" } }
+
 Trees(z) ==
-  CASE Family = "expr"  -> { << <<Say(e)>> >> : e \in Exprs(z) } \cup { << <<SIf(0, e, <<Say(N(1))>>, FALSE, <<>>)>> >> : e \in PrecTrees }
+  CASE Family = "poetic" -> PoeticTrees(z)
+    [] Family = "expr"  -> { << <<Say(e)>> >> : e \in Exprs(z) } \cup { << <<SIf(0, e, <<Say(N(1))>>, FALSE, <<>>)>> >> : e \in PrecTrees }
     [] Family = "stmt"  -> { << <<s>> >> : s \in Stmts(z) } \cup { << <<Say(N(1)), s, Say(N(2))>> >> : s \in Stmts(z) }
     [] Family = "block" -> Blocks(z)
 
@@ -110,8 +128,24 @@ Mixed(n, a, b) == [i \in 1..n |-> (a * i * i + b * i + a + b) % 47]
 MixedTapes(n) == { Mixed(n + 4, ab[1], ab[2]) : ab \in (IF Tier = "quick" THEN {<<3, 7>>, <<5, 11>>, <<17, 2>>} ELSE {1, 3, 5, 7, 11, 13, 17, 19, 23} \X {2, 7, 9, 14, 22, 31}) }
 Tapes(alts) == Tapes1(alts) \cup MixedTapes(Len(alts))
 
+(* C13: every fault of the catalogue in every context; letter case varied as a whole *)
+FaultCases(z) ==
+  UNION { UNION { { [k |-> "fault", kind |-> FA!All[g][1], fault |-> FA!All[g][2][i],
+                     text |-> cx.pre \o (IF up THEN NMS!Upper(FA!All[g][2][i]) ELSE FA!All[g][2][i]) \o cx.post,
+                     line |-> 1 + FA!CountNl(cx.pre)]
+                   : cx \in { FA!Contexts[j] : j \in 1..Len(FA!Contexts) }, up \in {FALSE, TRUE} }
+                 : i \in 1..Len(FA!All[g][2]) } : g \in 1..Len(FA!All) }
+
+(* poetic strings whose quote or parenthesis is not closed on the line: outside the quantifier of C11 (recorded finding) *)
+OpenSays(z) == { [k |-> "saysopen", str |-> t, text |-> "foo says " \o t \o NL \o "say 1" \o NL \o "say 2" \o NL]
+                 : t \in { "a \"b", "it (never ends", "\"", "x (y) (z" } }
+LoadOpen == /\ c.k = "init" /\ Family = "poetic"
+            /\ c' \in OpenSays(0)
+
 Init == c = [k |-> "init"]
-Load == /\ c.k = "init"
+LoadFaults == /\ c.k = "init" /\ Family = "fault"
+              /\ c' \in FaultCases(0)
+Load == /\ c.k = "init" /\ Family # "fault"
         /\ \E t \in Trees(0), off \in NamingOffsets : c' = [k |-> "tree", tree |-> t, off |-> off]
 Vary == /\ c.k = "tree"
         /\ LET nm == Naming(c.off)
@@ -121,9 +155,15 @@ Vary == /\ c.k = "tree"
                 c' = [k |-> "text", tree |-> c.tree, naming |-> nm, tape |-> tp, text |-> r.text, lines |-> r.lines]
 Strip == /\ c.k = "text" /\ c.tape = <<>>          \* the canonical rendering also without its trailing line ends
          /\ c' = [c EXCEPT !.k = "stripped", !.text = StripTrailingNl(c.text)]
-Next == Load \/ Vary \/ Strip
+Next == Load \/ LoadFaults \/ LoadOpen \/ Vary \/ Strip
 
+PoeticDigits(t) ==      \* the digits the first statement's poetic literal spells (C11), when it has one
+  LET s == t[1][1]
+      e == IF s.s = "pnum" THEN s.e ELSE IF s.s = "rock" /\ s.vals # <<>> THEN s.vals[1] ELSE ENone
+  IN IF e.e = "plit" THEN PO!Digits(e.elems) ELSE [ip |-> <<>>, fp |-> <<>>]
 Emit == c.k \in {"init", "tree"} \/
+        (c.k = "saysopen" /\ PrintT(<<"R", ToJson([fam |-> "saysopen", text |-> c.text, str |-> c.str])>>)) \/
+        (c.k = "fault" /\ PrintT(<<"R", ToJson([fam |-> "fault", kind |-> c.kind, fault |-> c.fault, text |-> c.text, line |-> c.line])>>)) \/
         PrintT(<<"R", ToJson([fam |-> "syntax", family |-> Family, text |-> c.text, tree |-> c.tree, naming |-> c.naming,
-                              tape |-> c.tape, lines |-> c.lines])>>)
+                              tape |-> c.tape, lines |-> c.lines, digits |-> PoeticDigits(c.tree)])>>)
 =============================================================================
